@@ -909,12 +909,45 @@ def static_type(g, v, top=True):
                                                 for l, f in zip(v["ls"], v["fs"])))
     if k == "fn":
         return "(" + render_type(g, v["n"], 0, True) + ")"
+    if k == "proc":
+        return render_type(g, v["n"], 0, True)
     raise Unrenderable(k)
+
+
+def render_proc_vcase(vc):
+    """(T, v) where v is a PROCESS value of signature (s, r): the pattern `='t` / `=('t)x` is applied to the pid
+    obtained (a) as the result of the spawn, (b) with `&.` in the process's own entry function, (c) with `&.` in
+    a helper function that the entry function calls (its frame is not the first one: seeded change C08-1 typed
+    the pid by the function of the CURRENT frame).  In (b) and (c) the process tests its own pid and posts the
+    verdict to the program's process."""
+    g, t, v = vc["g"], vc["t"], vc["v"]
+    pt = g["types"][v["n"] - 1]
+    ty = render_type(g, t)
+    S = render_type(g, pt["s"], 1, False)
+    Rlit = literal_of(g, pt["r"])
+    st = static_type(g, v)
+    no_recv = g["types"][pt["s"] - 1] == {"k": "uni", "ms": []}
+    if no_recv:
+        raise Unrenderable("process without a receive type")
+    recv = "! [#%s, 0] { | =[] => Ok | Ok }" % S          # declares the receive type, never blocks, never nil
+    out = []
+    for form, pat in (("type", "='t"), ("as", "=('t)x")):
+        head = "'t = %s\nf = #(%s | (@%s) | 't | Zq) { | %s => Ok | No }" % (ty, st, S, pat)
+        spawn = head + "\nk = @#{ %s, %s }\n&k f" % (recv, Rlit)
+        out.append((form, spawn, None))     # (no tree-shaken run: the in-process `quiv run` path has no scheduler for a second process)
+        entry = (head + "\npar = &.\nk = &par @#(@(Ok | No)) { =q, %s, &. f q, %s }\n!#(Ok | No)" % (recv, Rlit))
+        out.append((form + "-self", entry, None))
+        helper = (head + "\nh = #{ %s, &. }\npar = &.\n"
+                  "k = &par @#(@(Ok | No)) { =q, %s, h f q, %s }\n!#(Ok | No)" % (recv, recv, Rlit))
+        out.append((form + "-helper", helper, None))
+    return out
 
 
 def render_vcase(vc):
     """list of (form, program text, shaken program text) for one (T, v) case"""
     g, t, v = vc["g"], vc["t"], vc["v"]
+    if v["k"] == "proc":
+        return render_proc_vcase(vc)
     if "uni" in kinds_below(g, t) and any(x["k"] == "uni" and len(x["ms"]) < 2 and i + 1 != 1 and
                                           (i + 1) in reach_ids(g, t) and not is_rc(g, i + 1)
                                           for i, x in enumerate(g["types"])):
